@@ -786,7 +786,7 @@ def analyze(ctx, want):
     # order, its ast is converted and the predicate appended exactly once; a conversion error leaves the function as Err
     cm = F.fn(r"CharacterClassRegistry::create_match_char_class$")
     ctx.analysed_fn(cm)
-    ex, paths = run_fn(cm, F, BaseModel(), inline=INLINE)
+    ex, paths = run_fn(cm, F, BaseModel(), inline=INLINE, desugar=r".|collect")
     adapters = [M.short_name(M.call_name(t)) for bb, t in cm.calls(r"Iterator>::(rev|skip|take|filter|filter_map|step_by|skip_while|take_while|chain|zip|cycle)\b|::(sort\w*|reverse|dedup\w*|retain|swap|rotate_\w+|insert|remove|swap_remove|truncate|pop)$")]
     n_ok = n_err = 0
     srcs = set()
@@ -811,10 +811,13 @@ def analyze(ctx, want):
             ob("C15.e", "classes:conversion-error-is-returned", ends_err and not pu, "conversion failed -> %s" % (S.vstr(p.end[1])[:50] if p.end[0] == "return" else p.end[0]), cm.loc())
         else:
             n_ok += 1
-            good = len(cv) == 1 and from_item and len(pu) == 1 and pu[0][3][1] == ("field", ("downcast", cv[0][4], "Ok"), "0") and p.end[0] == "cut"
+            okv = ("field", ("downcast", cv[0][4], "Ok"), "0")
+            ci = [e for e in p.events if e[0] == "collect-item"]        # map(convert).collect::<Result<Vec<_>, _>>() analysed as the loop
+            appended = [x[3][1] for x in pu] + [e[2] for e in ci]
+            good = len(cv) == 1 and from_item and len(appended) == 1 and appended[0] == okv and p.end[0] == "cut"
             if not good:
                 okp = False
-                det = "push(%s) of conversion(%s), then %s" % ([S.vstr(x[3][1])[:50] for x in pu], a0[:60], p.end[0])
+                det = "appends %s of conversion(%s), then %s" % ([S.vstr(x)[:50] for x in appended], a0[:60], p.end[0])
     ob("C08.e", "each-class-converted-and-pushed-once", okp and n_ok >= 1, det or "%d iteration path(s): convert CharacterClass::ast(item), push the predicate" % n_ok, cm.loc())
     ob("C08.e", "one-predicate-per-class-in-id-order", bool(srcs) and all("self.character_classes" in x for x in srcs) and not adapters, "iteration over %s; reordering/filtering calls: %s" % (sorted(srcs), adapters), cm.loc())
     ob("C15.e", "classes:both-outcomes", n_ok >= 1 and n_err >= 1, "iteration paths: %d converting, %d failing" % (n_ok, n_err), cm.loc())
